@@ -125,9 +125,9 @@ claim("C01", "model_checking",
 EXTRA = {
     "C01": " The molecular template is tilted against the axes; one grand-canonical history declares an accessible volume and is stopped, rebuilt from its dictionary and continued. A Hamiltonian history is stopped, rebuilt and continued; a composite displacement + exchange proposal is part of the grand-canonical ideal-gas histories. Harmonic particles whose spring is half calculator, half Hookean tether; a Hamiltonian history coarse enough to reject a good part of its trajectories.",
     "C02": " Sequences of four trials on one configured simulation (parameters set once) and runs started after a manual pre-strain of the cell (the first trial is judged against the volume at the start of the run; the uniform is scripted between the two candidate ratios) are judged by the same mirror. Left-handed cells are part of the lattice realisation; real grand-canonical runs (atomic and molecular ideal gas) are judged trial by trial with the particle number really in the box; DefaultCriteria.tla (first match = most specific match in every driver's default-criteria table) is replayed through add_move. Exchange species with user-set masses; real canonical runs with a Hookean restraint (constraint energy is part of the Boltzmann factor). The Hamiltonian clause after trajectories refused by the user's geometric check (atoms that bring momenta of their own).",
-    "C03": " MC_QMC.tla is also checked exhaustively (11 invariants over 7 set-ups incl. FixCom and composite exchange) and its complete behaviours are replayed into the real drivers (spec -> code). Runs in two legs with a manual edit of the atoms between them (edit event / UserEdit action), with and without the user resetting the remembered energy. One trial that exchanges and displaces (plain composite, both orders) is part of the scenarios, of MC_QMC.tla and of the replay. MultiContexts.tla (the statement for a family of systems) is replayed on the real MultiContexts with Displacement / Deformation / Exchange / Hamiltonian members. Scenario calculators depend on the species; family gcmix (particles of different species, double deletions, two deleting exchange moves followed by a displacement in one trial).",
+    "C03": " MC_QMC.tla is also checked exhaustively (11 invariants over 7 set-ups incl. FixCom and composite exchange) and its complete behaviours are replayed into the real drivers (spec -> code). Runs in two legs with a manual edit of the atoms between them (edit event / UserEdit action), with and without the user resetting the remembered energy. One trial that exchanges and displaces (plain composite, both orders) is part of the scenarios, of MC_QMC.tla and of the replay. MultiContexts.tla (the statement for a family of systems) is replayed on the real MultiContexts with Displacement / Deformation / Exchange / Hamiltonian members. Scenario calculators depend on the species; family gcmix (particles of different species, double deletions, two deleting exchange moves followed by a displacement in one trial). Hamiltonian runs with FixCom and with time steps at which a good part of the trajectories is rejected.",
     "C04": " MC_QMC.tla (exhaustive, with a Restart action: the run continues from its restart dictionary with a fresh calculator) and its replay into the real drivers; a quarter of the recorded runs start from a simulation rebuilt through to_dict / JSON / from_dict with a fresh calculator. Runs in two legs with a manual edit (positions, and cell in the cell-changing ensembles) between them; the user resets the remembered energy. A Hookean restraint in the canonical scenarios (the reported / remembered energy includes it, the calculator's results do not); species-dependent calculators and family gcmix.",
-    "C05": " MC_QMC.tla (exhaustive) and its replay; scenario families include an identity swap in both orders inside one trial and runs that empty the system. Pre-selected particles of another size than the template (sizes of pending insertions in the specification's state). Moves that join, or replace an entry of, the move table after exchanges have been accepted stay aligned.",
+    "C05": " MC_QMC.tla (exhaustive) and its replay; scenario families include an identity swap in both orders inside one trial and runs that empty the system. Pre-selected particles of another size than the template (sizes of pending insertions in the specification's state). Moves that join, or replace an entry of, the move table after exchanges have been accepted stay aligned. Family gccoarse: a displacement move that groups the exchangeable particles in pairs (partial-group deletion, then insertion).",
     "C06": " The same seed is also run in fresh interpreters with other PYTHONHASHSEED values (the other process-wide source of arbitrariness) and must give the same tokens. The seed is also spelled as a numpy integer.",
     "C07": " Tables include default_label 0 and one exchange move shared by a stand-alone and a composite entry; Restart.tla names the transient pre-selections that are not saved. The scalar settings Restart.tla lists as future-relevant are part of the per-step digest; one table declares an accessible volume. A table whose one trial exchanges and then displaces. The restart path itself (both logging modes, fresh or over an older, longer document) is read back after every step and must hold the observer's document.",
     "C08": " Registry.tla (insertion order, last registration wins, first name of a class, typed lookup) is replayed on the real registry. Readers that never built the objects (fresh interpreter: first import + owner sub-package only) rebuild every document by registered name; a time step assigned on the live integrator. Values that are another class's default must survive; the dictionary is a snapshot (editing the rebuilt simulation must not change it). A composite operation nested in a composite operation (Serial.tla).",
